@@ -635,12 +635,12 @@ with expr_lex (fuel : nat) (st : interp) (info : einfo) {struct fuel} : eres :=
                      | other => value_of st1 other rest false
                      end)
               else if N.eqb c c_dquote then
-                lift_p st (parse_quoted is_alphanumeric (parse_fuel r) parse_bt r tk_new)
+                lift_p st (parse_quoted is_alphanumeric (parse_fuel r) parse_bt false r tk_new)
                   (fun w rest =>
                      if noeval info then value_of st (Ok v_empty) rest true
                      else let '(st1, rv) := eval_word exec st w in value_of st1 rv rest true)
               else if N.eqb c c_lbrace then
-                lift_p st (parse_braced_word parse_bt p)
+                lift_p st (parse_braced_string p)
                   (fun w rest =>
                      match w with
                      | WValue s => value_of st (Ok (VStr s)) rest true
